@@ -243,7 +243,7 @@ def main():
         for o in cfg["oracles"]:
             vs.extend(propcfg.ORACLES[o](h))
         if vs:
-            cls = propcfg.known_class(pid, h, known)
+            cls = propcfg.known_class(pid, h, known, vs)
             (kc_hits if cls else hits).append((d, vs, cls))
         if len(samples) < 3 and d["steps"] > 10:
             samples.append({"scenario": s.text(), "first_steps": [x for x in rl if x and x[0].isdigit()][:12],
